@@ -28,7 +28,7 @@ theorem PES_pack_layout (s : PES) (h : PES_WF s) :
     finding K2, witness below: the decoder recognises the optional header heuristically. -/
 theorem PES_roundtrip_partial (s t : PES) (h : PES_WF s) (hs : s.pkt.sync = 0x47)
     (hafc : s.pkt.adaption_ctrl = 1 ∨ s.pkt.adaption_ctrl = 3) (hne : PES.ext s = none)
-    (hf : Pkt_used (PES_pkt s) ≤ 188) (h9 : 3 ≤ (PES_tail s).length) (hnl : ¬ looksLikeHeader s) :
+    (hf : Pkt_used (PES_pkt s) ≤ 188) (hnl : 3 ≤ (PES_tail s).length → ¬ looksLikeHeader s) :
     ∃ b, (PES.pack s).2 = .ok b ∧ b.length = 188 ∧
       (PES.unpack t b).2 = .ok () ∧
       (PES.unpack t b).1.streamid = s.streamid ∧
@@ -38,7 +38,7 @@ theorem PES_roundtrip_partial (s t : PES) (h : PES_WF s) (hs : s.pkt.sync = 0x47
       (PES.unpack t b).1.pkt = Pkt_decoded (PES_pkt s) := by
   refine ⟨Pkt_bytes (PES_pkt s), by rw [PES_pack_eq s h], ?_, ?_⟩
   · rw [Pkt_bytes_length]; omega
-  · rw [PES_unpack_headerless s t h hs hafc hne h9 hnl]
+  · rw [PES_unpack_headerless_any s t h hs hafc hne hnl]
     exact ⟨rfl, rfl, rfl, rfl, rfl, rfl, rfl⟩
 
 /-- K2 witness: payload-only packet, no optional header, 178 data bytes starting with 0x80 (the PES
@@ -115,17 +115,18 @@ example : PES_WF headerFill ∧ headerFill.pkt.sync = 0x47 ∧
     PES.ext headerFill = some (0x81, 0x80, [0x21, 0, 1, 0, 1]) ∧ 0x81 / 16 = 8 ∧ Pkt_used (PES_pkt headerFill) = 188 := by
   decide +kernel
 
-/-- what `h9` excludes (E7 reached inside a 188-byte packet): a header-less PES packet with fewer than 3 bytes after
-    the 6-byte prefix — here 2 data bytes, the packet filled exactly by 175 bytes of adaptation stuffing — is well
-    formed, packs to 188 bytes, and `PES.unpack` of its own encoding raises `struct.error` (the 3-byte peek at
-    payload offset 6) -/
+/-- the former hypothesis `h9 : 3 ≤ |PES_tail s|` is gone (repaired by the `fix:` commit da005f6): a header-less PES
+    packet with fewer than 3 bytes after the 6-byte prefix — here 2 data bytes, the packet filled exactly by 175
+    bytes of adaptation stuffing — is well formed, packs to 188 bytes, and `PES.unpack` of its own encoding now
+    returns the two bytes (it used to raise `struct.error` from the 3-byte peek at payload offset 6) -/
 example :
     let s : PES :=
       { PES.fresh with
         pkt := { Pkt.fresh with adaption_ctrl := 3, adaption_field := some { AF.fresh with length := 175 } },
         streamid := 224, pesdata := [1, 2] }
-    PES_WF s ∧ PES.ext s = none ∧ Pkt_used (PES_pkt s) = 188 ∧ (PES_tail s).length = 2 ∧ ¬ looksLikeHeader s ∧
-    (match (PES.unpack PES.fresh (Pkt_bytes (PES_pkt s))).2 with | .error .struct => true | _ => false) = true := by
+    PES_WF s ∧ PES.ext s = none ∧ Pkt_used (PES_pkt s) = 188 ∧ (PES_tail s).length = 2 ∧
+    (match (PES.unpack PES.fresh (Pkt_bytes (PES_pkt s))).2 with | .ok () => true | _ => false) = true ∧
+    (PES.unpack PES.fresh (Pkt_bytes (PES_pkt s))).1.pesdata = [1, 2] := by
   decide +kernel
 
 /-- what `hfull` of `PES_roundtrip_header` excludes (corollary of K2): a packet WITH the optional header that does not
